@@ -1,6 +1,8 @@
 package main
 
 import (
+	"time"
+	"runtime"
 	"fmt"
 	"go/token"
 	"go/types"
@@ -432,6 +434,9 @@ func (m *Machine) runFrame(fr *frame) {
 			m.steps++
 			if m.steps > m.maxSteps {
 				panic(pathAbort{abUnwind, fmt.Sprintf("step budget %d exceeded", m.maxSteps)})
+			}
+			if m.steps&0xFFFF == 0 {
+				m.watchdog()
 			}
 			if m.visitInstr(fr, instr) == kReturn {
 				return
@@ -955,11 +960,25 @@ func (m *Machine) slice(instr *ssa.Slice, x, lo, hi, max Value) Value {
 }
 
 // poisonGlobals marks nil-able globals of a package whose init is skipped.
+// osErrAliases: package os is not initialised (its init opens files), but these sentinel errors are plain aliases of
+// io/fs values whose package init does run; they share the io/fs cell.
+var osErrAliases = map[string]string{"ErrClosed": "ErrClosed", "ErrNotExist": "ErrNotExist", "ErrExist": "ErrExist", "ErrPermission": "ErrPermission", "ErrInvalid": "ErrInvalid"}
+
 func (m *Machine) poisonGlobals(p *ssa.Package) {
 	for _, mem := range p.Members {
 		g, ok := mem.(*ssa.Global)
 		if !ok {
 			continue
+		}
+		if p.Pkg.Path() == "os" {
+			if target, ok := osErrAliases[g.Name()]; ok {
+				if fs := m.prog.ImportedPackage("io/fs"); fs != nil {
+					if tg, ok := fs.Members[target].(*ssa.Global); ok {
+						m.globals[g] = m.global(tg)
+						continue
+					}
+				}
+			}
 		}
 		switch deref(g.Type()).Underlying().(type) {
 		case *types.Pointer, *types.Map, *types.Slice, *types.Interface, *types.Signature, *types.Chan:
@@ -1020,4 +1039,19 @@ func (m *Machine) selectNonScalar(base []Value, idx *Term) Value {
 		}
 	}
 	panic(pathAbort{abEngine, "selectNonScalar: no group"})
+}
+
+// watchdog aborts a path that outlives the instance's time budget or lets the process grow beyond the memory guard
+// (reported as inconclusive, never as held).
+func (m *Machine) watchdog() {
+	if !m.deadline.IsZero() && time.Now().After(m.deadline) {
+		panic(pathAbort{abUnsupported, "time budget exhausted inside a path"})
+	}
+	if m.steps&0xFFFFF == 0 {
+		var ms runtime.MemStats
+		runtime.ReadMemStats(&ms)
+		if ms.HeapAlloc > 20<<30 {
+			panic(pathAbort{abUnsupported, "memory guard (20 GiB heap) reached"})
+		}
+	}
 }
